@@ -373,6 +373,28 @@ def classify_error(e, SErr):
 
 def run_real(real, ops, oracle=None):
     """returns (reply lines comparable with the model's, asan lines, expected asan replies)"""
+    # every fourth session runs as `-vv` would make it: the schedulers cache isEnabledFor(DEBUG) at construction and log the returned
+    # event then (records go to a null sink); pickled-and-restored schedulers re-read the level in __setstate__
+    import logging as _lg
+    _dbg = (sum(len(str(o)) for o in ops[:8]) + len(ops)) % 4 == 0
+    _jl = _lg.getLogger("jellyfysh")
+    _saved = (_lg.root.manager.disable, _jl.level, _jl.propagate, list(_jl.handlers))
+    if _dbg:
+        _lg.disable(_lg.NOTSET)
+        _jl.setLevel(_lg.DEBUG)
+        _jl.propagate = False
+        _jl.handlers = [_lg.NullHandler()]
+    try:
+        return _run_real(real, ops, oracle)
+    finally:
+        if _dbg:
+            _lg.disable(_saved[0])
+            _jl.setLevel(_saved[1])
+            _jl.propagate = _saved[2]
+            _jl.handlers = _saved[3]
+
+
+def _run_real(real, ops, oracle=None):
     hs, ls = real.HS(), real.LS()
     H = {}
     out, alines, aexp = [], ["R"], ["ok"]
